@@ -332,6 +332,14 @@ def chunk_accessors(strand, chunk_strand=PLUS):
         walk = [q for a, b in order for q in (range(a, b) if rel_strand is PLUS else range(b - 1, a - 1, -1))]
         for i, q in enumerate(walk):
             ok = ok and t.transcript_pos_to_chunk_relative(i) == q and t.chunk_relative_pos_to_transcript(q) == i
+        # the same lookups ALTERNATING with chromosome-coordinate lookups on the same object (positions of the FULL transcript): neither coordinate system's
+        # answer may depend on what was asked in the other one just before
+        full = TranscriptInterval([e[0] for e in ex], [e[1] for e in ex], strand, guid=50)
+        to_chrom = (lambda q: q + w) if chunk_strand is PLUS else (lambda q: w + Lc - 1 - q)
+        for i, q in enumerate(walk):
+            c = to_chrom(q)
+            ok = ok and t.sequence_pos_to_transcript(c) == full.sequence_pos_to_transcript(c) and t.chunk_relative_pos_to_transcript(q) == i
+            ok = ok and t.sequence_pos_to_transcript(to_chrom(walk[-1 - i])) == full.sequence_pos_to_transcript(to_chrom(walk[-1 - i]))
         for bad in (-1, len(walk)):
             try:
                 t.transcript_pos_to_chunk_relative(bad)
